@@ -52,9 +52,10 @@ VARIABLES
   actual,  \* wms: the odict `actual_layers` (its keys, in order)
   authz,   \* wms: what authorized_layers returned: [all |-> PERMIT_ALL_LAYERS?, lims |-> [name -> geometry id | "none"]]
   cov,     \* the request-wide / tile coverage: set of geometry ids ({} = none)
-  out      \* the response (and the upstream requests made for it)
+  out,     \* the response (and the upstream requests made for it)
+  path     \* names of the actions taken (history, for the coverage guard of the harness)
 
-vars == <<req, cb, pc, actual, authz, cov, out>>
+vars == <<req, cb, pc, actual, authz, cov, out, path>>
 
 ---------------------------------------------------------------------------
 Range(s) == {s[i] : i \in DOMAIN s}
@@ -154,6 +155,7 @@ Collect(acc, ls, prune) ==
 
 \* wms.py:107-117 (map) / :212-219 (featureinfo)
 CollectLayers ==
+  /\ path' = Append(path, "CollectLayers")
   /\ pc = "start" /\ req.f \in {"wms.map", "wms.fi"}
   /\ actual' = Collect(<<>>, req.ls, req.f = "wms.map")
   /\ pc' = "authorize"
@@ -164,6 +166,7 @@ Flag(f) == CASE f \in {"wms.map", "wms.caps"} -> "map"
              [] f \in {"wms.fi", "wmts.fi.kvp", "wmts.fi.rest"} -> "featureinfo"
              [] OTHER -> "tile"
 CallAuthorize ==
+  /\ path' = Append(path, "CallAuthorize")
   /\ pc = "authorize" /\ req.f \in {"wms.map", "wms.fi"}
   /\ IF cb.authorized = "unauthenticated"
        THEN /\ out' = Error(401) /\ pc' = "done" /\ UNCHANGED <<authz, cov>>
@@ -180,6 +183,7 @@ CallAuthorize ==
 \* WMSServer.filter_actual_layers: explicitly requested and not authorized -> 403, implicitly (member of a requested
 \* group) -> dropped; authorized with limited_to -> wrapped in LimitedLayer (kept in authz.lims)
 FilterActualLayers ==
+  /\ path' = Append(path, "FilterActualLayers")
   /\ pc = "filter"
   /\ IF authz.all THEN /\ pc' = "render" /\ UNCHANGED <<actual, out>>
      ELSE IF \E n \in Range(actual) : n \notin DOMAIN authz.lims /\ n \in req.expl
@@ -202,6 +206,7 @@ PixelAllowed(b, i, j) ==
   IN IF gc = "out" THEN {"dark"} ELSE IF gc = "band" THEN shown \cup under \cup {"dark"} ELSE shown \cup under
 
 RenderAndMerge ==
+  /\ path' = Append(path, "RenderAndMerge")
   /\ pc = "render" /\ req.f = "wms.map"
   /\ LET b == req.box IN
      out' = [NoOut EXCEPT !.status = 200, !.ups_must = Range(actual), !.ups_may = Range(actual),
@@ -212,6 +217,7 @@ RenderAndMerge ==
 \* wms.py:226-238 + LimitedLayer.get_info: the query point is the upper left corner of pixel (I, J);
 \* GeomCoverage.contains(point) is true in the interior only; exactly on the boundary both answers are accepted
 InfoGate ==
+  /\ path' = Append(path, "InfoGate")
   /\ pc = "render" /\ req.f = "wms.fi"
   /\ LET pt == Corner(req.box, req.pos[1], req.pos[2])
          gcl == IF cov = {} THEN "in" ELSE PointClass(CHOOSE id \in cov : TRUE, pt)
@@ -243,6 +249,7 @@ Listed(n, lvl) ==    \* lvl = "must": certainly listed, "may": possibly listed
   ELSE ok(n)
 
 WmsCapabilities ==
+  /\ path' = Append(path, "WmsCapabilities")
   /\ pc = "start" /\ req.f = "wms.caps"
   /\ out' = IF cb.authorized = "unauthenticated" THEN Error(401)
             ELSE IF cb.authorized = "full" THEN [NoOut EXCEPT !.status = 200, !.list_must = WmsNames, !.list_may = WmsNames]
@@ -256,6 +263,7 @@ WmsCapabilities ==
 \* ---------------------------------------------------------------------------------------------------------
 \* tile services: TileServer / KMLServer / WMTSServer .authorize_tile_layer
 TileAuthorize ==
+  /\ path' = Append(path, "TileAuthorize")
   /\ pc = "start" /\ IsTileReq(req.f)
   /\ LET key == Flag(req.f) IN
      IF cb.authorized = "unauthenticated" THEN /\ out' = Error(401) /\ pc' = "done" /\ UNCHANGED cov
@@ -270,6 +278,7 @@ TileAuthorize ==
 
 \* TileLayer.render: coverage.contains(tile_bbox) -> as is; .intersects -> masked; else empty_response (no upstream)
 TileRender ==
+  /\ path' = Append(path, "TileRender")
   /\ pc = "tile" /\ req.f \in {"tms", "kml", "wmts.kvp", "wmts.rest"}
   /\ LET b == TileBox(req.tile)
          r == BoxRect(b)
@@ -293,6 +302,7 @@ TileRender ==
 
 \* WMTSServer.featureinfo: wmts.py:133-140
 TileInfoGate ==
+  /\ path' = Append(path, "TileInfoGate")
   /\ pc = "tile" /\ req.f \in {"wmts.fi.kvp", "wmts.fi.rest"}
   /\ LET pt == Corner(TileBox(req.tile), req.pos[1], req.pos[2])
          cls == {PointClass(id, pt) : id \in cov}
@@ -304,6 +314,7 @@ TileInfoGate ==
 
 \* KMLServer.kml (super overlay document), TileServer.tms_capabilities for one layer: authorization only
 TileDocument ==
+  /\ path' = Append(path, "TileDocument")
   /\ pc = "tile" /\ req.f \in {"kml.doc", "tms.layer"}
   /\ out' = [NoOut EXCEPT !.status = 200, !.list_must = {req.lay}, !.list_may = {req.lay}]
   /\ pc' = "done"
@@ -311,6 +322,7 @@ TileDocument ==
 
 \* TileServer / WMTSServer .authorized_tile_layers
 TileCapabilities ==
+  /\ path' = Append(path, "TileCapabilities")
   /\ pc = "start" /\ req.f \in {"tms.caps", "wmts.caps"}
   /\ out' = IF cb.authorized = "unauthenticated" THEN Error(401)
             ELSE IF cb.authorized = "full" THEN [NoOut EXCEPT !.status = 200, !.list_must = TileLayers, !.list_may = TileLayers]
@@ -333,7 +345,7 @@ CBs == {[authorized |-> a, layers |-> <<>>, glob |-> g] : a \in AuthKinds \ {"pa
 
 Init ==
   /\ req \in Requests /\ cb \in CBs
-  /\ pc = "start" /\ actual = <<>> /\ authz = [all |-> FALSE, lims |-> <<>>] /\ cov = {} /\ out = NoOut
+  /\ pc = "start" /\ actual = <<>> /\ authz = [all |-> FALSE, lims |-> <<>>] /\ cov = {} /\ out = NoOut /\ path = <<>>
 
 Spec == Init /\ [][Next]_vars
 
@@ -403,5 +415,5 @@ PrunedBelowDenied ==
 
 \* one line per terminal state: the table (request, callback result) -> response   (spec -> code conformance)
 PropertyOn(o) == DeniedStaysDarkOn(o) /\ ClippedOutsideOn(o) /\ ContentInsideOn(o) /\ InfoGateOn(o)
-Emit == Done => PrintT(<<"case", req, cb, out, PrunedBelowDenied, PropertyOn(out)>>)
+Emit == Done => PrintT(<<"case", req, cb, out, PrunedBelowDenied, PropertyOn(out), path>>)
 =============================================================================
